@@ -88,7 +88,7 @@ _GRAPH_TRUST = ['assumed contract of the built-in list (append/remove/in/index/c
                 'graph lemma axioms D1-D5, G1 (transcriptions of lemmas/Graph.lean, proved in Lean 4 + Mathlib; transcription trusted, validated on all relations over <= 4 nodes)',
                 'history induction (meta-argument): every public mutator preserves Inv on both exits, constructors establish it; closed by the encapsulation scan']
 _GRAPH_B = ['WBS.__init__ with initial tasks, Task.__init__ with dependency arguments, operators with a single task or a non-list iterable as right operand - bounded stand-in only (random histories of public calls)',
-            'callers of the children setter (roots setter, _ChildrenList.remove, WBS.remove / remove_all, //, constructor): their contracts still allow a refusal out of the attach loop of the children setter (the proof that it cannot happen needs ids unique (U1) in the pre-state, which these callers do not carry) - C15 of these paths: bounded stand-in',
+            'Task.__init__ does not carry the id clause U1 (a refusal out of the attach loop of the children setter is excluded only for heaps with unique ids) - constructor with children: C15 / C05 by the bounded stand-in',
             'assumed by contract: _to_list (type dispatch of the setters\' argument), the correspondence between the opaque id-clash predicate used in the mutator units and the proved post-condition of _has_id_intersection (same sentence, two formulations), '
             'the read-only list view _ImmutableTaskList (delegates in / iteration / len to the wrapped list). The closure helpers are no longer assumed: Task.all_children / __get_all_children / its generator, '
             'all_parents, all_predecessors / all_successors with _unique_tasks, _check_no_links_to_ancestors, the getters parent / id / wbs and Task._attach / _detach / __set_children are proved in their own units; '
@@ -112,7 +112,8 @@ PROPS.update({
              'WBS.__getitem__ returns a member with the id / raises exactly when there is none. Uniqueness itself (U1: two different tasks of one tree never share an id) is proved to be preserved by Task.parent.setter - the operation every attach / move / adopt goes through - in a unit of its own (`Task.parent.setter[ids]`, '
              'root-of-tree function with the Lean lemmas R1-R3, lemma chain) and carried through _ChildrenList.append / insert; the id test _has_id_intersection is proved to answer True exactly if, among the tasks below the named tasks that are not yet in the receiving tree, two share an id or one has the id of a task of that tree '
              '(with _find_root and _collect_subtree; the comparison of two set sizes is read as "the ids are not pairwise different" - pigeonhole, an assumed fact about finite sets); the mutator units use the test through an opaque predicate whose revealed meaning is this sentence; '
-             'for the children setter (whose attach loop re-joins kept subtrees without an id test) and the constructors U1 is decided by the bounded stand-in.',
+             'the children setter preserves U1 as well (unit `[no-late-refusal]`: tasks of one tree afterwards were in one tree before, or are both in the receiving tree or incoming - whose ids the id test has compared), '
+             'and so do its callers (roots setter, _ChildrenList.remove, WBS.remove / remove_all, //: `ids unique before => unique after`, and `a refusal out of the attach loop needs ids that were not unique`); for the constructors U1 is decided by the bounded stand-in.',
              _GRAPH_B, _GRAPH_TRUST + ['WBS.__getitem__ is proved to return a member with the id / raise exactly when there is none, given the listing of all_children'], design_ref='8/C05'),
     'C11': P('other', _GRAPH_EXPL + 'C11: W1 (owner constant along the hierarchy), W1r (a task reports WBS X only if it is reachable from X\'s hidden root) and WR proved for re-parenting incl. subtree adoption; release paths (remove, assignments) bounded.',
              _GRAPH_B, _GRAPH_TRUST, design_ref='8/C11'),
